@@ -54,6 +54,10 @@ type caseSpec struct {
 	Filter       bool        `json:"filter,omitempty"` // ctx.FilterFunc = FilterPodsForUnorderedUpdate (set by the controls when noNeedUpdateReplicas != nil)
 	NoNeed       int         `json:"noNeed,omitempty"` // status.canaryStatus.noNeedUpdateReplicas when Filter
 	Pods         []podSpec   `json:"pods"`
+	// SuffixOld (Deployment only): the old ReplicaSet's pod-template-hash is "6" + the update revision, i.e. the update
+	// revision is a proper suffix of an old pod's hash label (hashes have no fixed length). The unchanged code asks
+	// "does the update revision end with the pod's hash", which is false for the longer string.
+	SuffixOld bool `json:"suffixOld,omitempty"`
 }
 
 func (s caseSpec) clone() caseSpec {
@@ -273,6 +277,8 @@ func genCase(rng *rand.Rand) caseSpec {
 			}
 		}
 	}
+	// (no extra draw, so that the other cases of a seed stay what they were)
+	s.SuffixOld = s.Owner == "Deployment" && (len(s.Pods)+s.Replicas+len(s.Batches))%4 == 0
 	return s
 }
 
